@@ -95,7 +95,7 @@ impl MultiPeerBackend for RepSocketBackend {
 
         let conn = next_conn();
         let registered =
-            crate::backend::register(&self.peers, peer_id, Peer::new(conn, send_queue)).await;
+            crate::backend::register(&self.peers, peer_id, Peer::new(conn, send_queue));
         #[cfg(feature = "verif-hooks")]
         crate::__verif::yield_point("reg.after_table").await;
         self.fair_queue_inner
@@ -146,8 +146,7 @@ impl SocketSend for RepSocket {
                 let peer = self
                     .backend
                     .peers
-                    .read_async(&peer_id, |_, peer| peer.clone())
-                    .await
+                    .read_sync(&peer_id, |_, peer| peer.clone())
                     // (a newer connection under the requester's identity is not the requester)
                     .filter(|peer| peer.conn == conn);
                 if let Some(peer) = peer {
